@@ -290,6 +290,16 @@ pub fn report(prop: &str, sig: &str, first: &J) -> String {
     path
 }
 
+/// A finding that names only *other* properties than the one being checked: keep the run (not
+/// minimised) so that it can be chased with `circ-sim replay`; it does not fail this check.
+pub fn keep_foreign(prop: &str, sig: &str, first: &J) -> String {
+    let Some(desc) = first.get("desc").and_then(RunDesc::from_json) else { return String::new() };
+    let path = format!("{}/replays/other-property-seen-by-{}-{}-{}.json", crate::check::home(), prop, sanitize(sig), first.getu("seed") & 0xFFFF_FFFF);
+    let res = first.get("result").cloned().unwrap_or(J::Null);
+    let _ = std::fs::write(&path, replay_json(&desc, &res, sig, false, 0, None).pretty());
+    path
+}
+
 /// `circ-sim replay <file>`: exit 1 + VIOLATION line if the recorded violation reproduces
 /// exactly, exit 0 if the run is clean, exit 2 if it diverges.
 pub fn replay(path: &str) -> i32 {
